@@ -408,8 +408,8 @@ Definition valid_event (stations : list Z) (e : event) : Prop :=
 
 Record valid (stations : list Z) (evs : list event) : Prop := {
   v_events : Forall (valid_event stations) evs;
-  v_nodup : NoDup (map sid (sessions_of evs));
-  v_nooverlap : forall x y, In x (sessions_of evs) -> In y (sessions_of evs) -> sid x <> sid y ->
+  v_nodup : NoDup (map skey (sessions_of evs));
+  v_nooverlap : forall x y, In x (sessions_of evs) -> In y (sessions_of evs) -> skey x <> skey y ->
       s_station x = s_station y ->
       s_departure x <= s_arrival y \/ s_departure y <= s_arrival x }.
 
@@ -431,10 +431,24 @@ Proof.
   - exfalso. apply Hn. rewrite <- E. apply in_map; auto.
 Qed.
 
-Definition is_plug (i : Z) (e : event) : bool :=
-  match e with EPlugin _ y => Z.eqb (sid y) i | _ => false end.
-Definition is_unpl (i : Z) (e : event) : bool :=
-  match e with EUnplug _ y => Z.eqb (sid y) i | _ => false end.
+Lemma key_eqb_eq a b : key_eqb a b = true <-> a = b.
+Proof.
+  unfold key_eqb. destruct a as [a1 a2], b as [b1 b2]. simpl.
+  rewrite andb_true_iff, !Z.eqb_eq. split; [intros (-> & ->); auto|intro H; inversion H; auto].
+Qed.
+Lemma key_eqb_refl a : key_eqb a a = true.
+Proof. apply key_eqb_eq. reflexivity. Qed.
+Lemma key_eqb_neq a b : key_eqb a b = false <-> a <> b.
+Proof.
+  destruct (key_eqb a b) eqn:E.
+  - apply key_eqb_eq in E. split; [discriminate|congruence].
+  - split; auto. intros _ H. apply key_eqb_eq in H. congruence.
+Qed.
+
+Definition is_plug (k : Z * Z) (e : event) : bool :=
+  match e with EPlugin _ y => key_eqb (skey y) k | _ => false end.
+Definition is_unpl (k : Z * Z) (e : event) : bool :=
+  match e with EUnplug _ y => key_eqb (skey y) k | _ => false end.
 
 Definition is_rec (ts : Z) (e : event) : bool :=
   match e with ERecompute u => Z.eqb u ts | _ => false end.
@@ -540,8 +554,8 @@ Section C01.
     pose proof (valid_in _ I) as (E & S & R). subst ts. auto.
   Qed.
 
-  Lemma sid_inj x y : In x sessions -> In y sessions -> sid x = sid y -> x = y.
-  Proof. intros. eapply nodup_map_inj with (f := sid); eauto. apply (v_nodup _ _ VALID). Qed.
+  Lemma sid_inj x y : In x sessions -> In y sessions -> skey x = skey y -> x = y.
+  Proof. intros. eapply nodup_map_inj with (f := skey); eauto. apply (v_nodup _ _ VALID). Qed.
 
   Lemma good_plugin ts x : good (EPlugin ts x) -> In x sessions /\ ts = s_arrival x.
   Proof.
@@ -564,13 +578,13 @@ Section C01.
     i_good_p : forall e, In e pend -> good e;
     i_good_h : forall u e, In (u, e) (hist st) -> good e /\ u = ev_ts e /\ u <= t;
     i_cons1 : forall x, In x sessions ->
-        (cnt (is_plug (sid x)) pend + cnt (is_plug (sid x)) (map snd (hist st)) = 1)%nat;
+        (cnt (is_plug (skey x)) pend + cnt (is_plug (skey x)) (map snd (hist st)) = 1)%nat;
     i_cons2 : forall x, In x sessions ->
-        (cnt (is_unpl (sid x)) pend + cnt (is_unpl (sid x)) (map snd (hist st))
-         = cnt (is_plug (sid x)) (map snd (hist st)))%nat;
+        (cnt (is_unpl (skey x)) pend + cnt (is_unpl (skey x)) (map snd (hist st))
+         = cnt (is_plug (skey x)) (map snd (hist st)))%nat;
     i_occ1 : forall s y, occ_get s (occ st) = Some y ->
-        In y sessions /\ s_station y = s /\ cnt (is_unpl (sid y)) pend = 1%nat;
-    i_occ2 : forall x, In x sessions -> cnt (is_unpl (sid x)) pend = 1%nat ->
+        In y sessions /\ s_station y = s /\ cnt (is_unpl (skey y)) pend = 1%nat;
+    i_occ2 : forall x, In x sessions -> cnt (is_unpl (skey x)) pend = 1%nat ->
         occ_get (s_station x) (occ st) = Some x;
     (* given Recompute events are neither lost nor duplicated *)
     i_cons3 : forall ts, (cnt (is_rec ts) pend + cnt (is_rec ts) (map snd (hist st)) = cnt (is_rec ts) evs)%nat }.
@@ -583,48 +597,48 @@ Section C01.
 
   (* a pending unplug of session y is the event EUnplug (departure y) y *)
   Lemma pending_unplug pend y :
-    (forall e, In e pend -> good e) -> In y sessions -> (cnt (is_unpl (sid y)) pend > 0)%nat ->
+    (forall e, In e pend -> good e) -> In y sessions -> (cnt (is_unpl (skey y)) pend > 0)%nat ->
     In (EUnplug (s_departure y) y) pend.
   Proof.
     intros G Iy C. apply cnt_pos_ex in C. destruct C as (e & Ie & Ee).
     destruct e as [|ts z|]; simpl in Ee; try discriminate.
-    apply Z.eqb_eq in Ee. destruct (G _ Ie) as (Iz & ->).
+    apply key_eqb_eq in Ee. destruct (G _ Ie) as (Iz & ->).
     assert (z = y) by (apply sid_inj; auto). subst z. exact Ie.
   Qed.
 
   Lemma processed_plugin t pend st y :
-    Inv t pend st -> In y sessions -> (cnt (is_plug (sid y)) (map snd (hist st)) > 0)%nat ->
+    Inv t pend st -> In y sessions -> (cnt (is_plug (skey y)) (map snd (hist st)) > 0)%nat ->
     In (s_arrival y, EPlugin (s_arrival y) y) (hist st) /\ s_arrival y <= t.
   Proof.
     intros I Iy C. apply cnt_pos_ex in C. destruct C as (e & Ie & Ee).
     apply in_map_iff in Ie. destruct Ie as ((u & e') & E' & Ie). simpl in E'. subst e'.
     destruct e as [ts z| |]; simpl in Ee; try discriminate.
-    apply Z.eqb_eq in Ee. destruct (i_good_h _ _ _ I _ _ Ie) as (G & -> & L).
+    apply key_eqb_eq in Ee. destruct (i_good_h _ _ _ I _ _ Ie) as (G & -> & L).
     destruct (good_plugin _ _ G) as (Iz & ->).
     assert (z = y) by (apply sid_inj; auto). subst z. simpl in *. auto.
   Qed.
 
   Lemma processed_unplug t pend st y :
-    Inv t pend st -> In y sessions -> (cnt (is_unpl (sid y)) (map snd (hist st)) > 0)%nat ->
+    Inv t pend st -> In y sessions -> (cnt (is_unpl (skey y)) (map snd (hist st)) > 0)%nat ->
     In (s_departure y, EUnplug (s_departure y) y) (hist st) /\ s_departure y <= t.
   Proof.
     intros I Iy C. apply cnt_pos_ex in C. destruct C as (e & Ie & Ee).
     apply in_map_iff in Ie. destruct Ie as ((u & e') & E' & Ie). simpl in E'. subst e'.
     destruct e as [|ts z|]; simpl in Ee; try discriminate.
-    apply Z.eqb_eq in Ee. destruct (i_good_h _ _ _ I _ _ Ie) as ((Iz & ->) & -> & L).
+    apply key_eqb_eq in Ee. destruct (i_good_h _ _ _ I _ _ Ie) as ((Iz & ->) & -> & L).
     assert (z = y) by (apply sid_inj; auto). subst z. simpl in *. auto.
   Qed.
 
-  Lemma is_plug_self ts x : is_plug (sid x) (EPlugin ts x) = true.
-  Proof. simpl. apply Z.eqb_refl. Qed.
-  Lemma is_unpl_self ts x : is_unpl (sid x) (EUnplug ts x) = true.
-  Proof. simpl. apply Z.eqb_refl. Qed.
+  Lemma is_plug_self ts x : is_plug (skey x) (EPlugin ts x) = true.
+  Proof. simpl. apply key_eqb_refl. Qed.
+  Lemma is_unpl_self ts x : is_unpl (skey x) (EUnplug ts x) = true.
+  Proof. simpl. apply key_eqb_refl. Qed.
 
   Ltac red_st := cbn [iter hist resolve last_upd calls occ_log num queue occ ev_hist log_event set_queue
                        set_occ set_flags set_num set_iter log_call log_occ set_ev_hist] in *.
   Hint Rewrite @cnt_app @cnt_cons @cnt_nil cnt_q_insert map_app map_cons : cntdb.
   Ltac cnts := autorewrite with cntdb in *; cbn [snd fst map is_plug is_unpl is_rec] in *; autorewrite with cntdb in *;
-               rewrite ?Z.eqb_refl in *; cbv iota in *.
+               rewrite ?key_eqb_refl, ?Z.eqb_refl in *; cbv iota in *.
 
   (* processing the first pending event of period t *)
   Lemma process_one t e rc (st : state) :
@@ -645,8 +659,8 @@ Section C01.
       destruct (session_props x Ix) as (Iev & Ist & R).
       pose proof (i_cons1 _ _ _ I x Ix) as C1. pose proof (i_cons2 _ _ _ I x Ix) as C2.
       cnts.  simpl is_unpl in C2.
-      assert (Hp0 : cnt (is_plug (sid x)) (map snd (hist st)) = O) by lia.
-      assert (Hu0 : cnt (is_unpl (sid x)) (rc ++ queue st) = O) by (cnts; lia).
+      assert (Hp0 : cnt (is_plug (skey x)) (map snd (hist st)) = O) by lia.
+      assert (Hu0 : cnt (is_unpl (skey x)) (rc ++ queue st) = O) by (cnts; lia).
       (* the station is free *)
       assert (Free : occ_get (s_station x) (occ st) = None).
       { destruct (occ_get (s_station x) (occ st)) as [y|] eqn:Oy; auto. exfalso.
@@ -660,9 +674,9 @@ Section C01.
         assert (Dy : t < s_departure y) by lia.
         pose proof (i_cons2 _ _ _ I y Iy) as C2y. pose proof (i_cons1 _ _ _ I y Iy) as C1y.
         cnts. simpl is_unpl in C2y.
-        assert (Py1 : (cnt (is_plug (sid y)) (map snd (hist st)) > 0)%nat) by lia.
+        assert (Py1 : (cnt (is_plug (skey y)) (map snd (hist st)) > 0)%nat) by lia.
         destruct (processed_plugin _ _ _ y I Iy Py1) as (_ & Ay).
-        assert (Dxy : sid x <> sid y).
+        assert (Dxy : skey x <> skey y).
         { intro E. rewrite E in Hp0. lia. }
         destruct (v_nooverlap _ _ VALID x y Ix Iy Dxy (eq_sym Sy)); lia. }
       rewrite process_plugin_eq, net_plugin_eq. red_st.
@@ -687,11 +701,11 @@ Section C01.
         * rewrite occ_get_set_other in Oy by auto.
           destruct (i_occ1 _ _ _ I _ _ Oy) as (Iy & Sy & Cy). repeat split; auto.
           cnts. simpl is_unpl in *.
-          destruct (sid x =? sid y) eqn:E; [|lia].
-          apply Z.eqb_eq in E. rewrite <- E in Cy. lia.
+          destruct (key_eqb (skey x) (skey y)) eqn:E; [|lia].
+          apply key_eqb_eq in E. rewrite <- E in Cy. lia.
       + intros z Iz Cz. cnts. simpl is_unpl in Cz.
-        destruct (sid x =? sid z) eqn:E.
-        * apply Z.eqb_eq in E. assert (x = z) by (apply sid_inj; auto). subst z.
+        destruct (key_eqb (skey x) (skey z)) eqn:E.
+        * apply key_eqb_eq in E. assert (x = z) by (apply sid_inj; auto). subst z.
           apply occ_get_set_same.
         * assert (Oz : occ_get (s_station z) (occ st) = Some z).
           { apply (i_occ2 _ _ _ I); auto. cnts. simpl is_unpl. lia. }
@@ -704,7 +718,7 @@ Section C01.
       destruct (session_props x Ix) as (Iev & Ist & R).
       pose proof (i_cons1 _ _ _ I x Ix) as C1. pose proof (i_cons2 _ _ _ I x Ix) as C2.
       cnts. simpl is_plug in C1. 
-      assert (Hu1 : cnt (is_unpl (sid x)) (rc ++ queue st) = O) by (cnts; lia).
+      assert (Hu1 : cnt (is_unpl (skey x)) (rc ++ queue st) = O) by (cnts; lia).
       assert (Ox : occ_get (s_station x) (occ st) = Some x).
       { apply (i_occ2 _ _ _ I); auto. cnts. lia. }
       rewrite process_unplug_eq, net_unplug_eq. red_st.
@@ -724,16 +738,16 @@ Section C01.
         * rewrite occ_get_remove_other in Oy by auto.
           destruct (i_occ1 _ _ _ I _ _ Oy) as (Iy & Sy & Cy). repeat split; auto.
           cnts. simpl is_unpl in Cy.
-          destruct (sid x =? sid y) eqn:E; [|lia].
-          apply Z.eqb_eq in E. assert (x = y) by (apply sid_inj; auto). subst y. congruence.
+          destruct (key_eqb (skey x) (skey y)) eqn:E; [|lia].
+          apply key_eqb_eq in E. assert (x = y) by (apply sid_inj; auto). subst y. congruence.
       + intros z Iz Cz.
-        destruct (sid x =? sid z) eqn:E.
-        * apply Z.eqb_eq in E. rewrite <- E in Cz. cnts. lia.
+        destruct (key_eqb (skey x) (skey z)) eqn:E.
+        * apply key_eqb_eq in E. rewrite <- E in Cz. cnts. lia.
         * assert (Oz : occ_get (s_station z) (occ st) = Some z).
           { apply (i_occ2 _ _ _ I); auto. cnts. simpl is_unpl. rewrite E. cnts. lia. }
           destruct (Z.eq_dec (s_station z) (s_station x)) as [Es|Ds].
           -- rewrite Es in Oz. rewrite Ox in Oz. inversion Oz; subst z.
-             rewrite Z.eqb_refl in E. discriminate.
+             rewrite key_eqb_refl in E. discriminate.
           -- rewrite occ_get_remove_other; auto.
       + intros ts0. pose proof (i_cons3 _ _ _ I ts0) as C. cnts. lia.
     - (* ---------------- Recompute ---------------- *)
@@ -806,21 +820,21 @@ Section C01.
       { apply pending_unplug; auto; [apply (i_good_p _ _ _ I)|lia]. }
       pose proof (G _ Py) as Ly. simpl in Ly.
       pose proof (i_cons2 _ _ _ I y Iy) as C2.
-      assert (P1 : (cnt (is_plug (sid y)) (map snd (hist st)) > 0)%nat) by lia.
+      assert (P1 : (cnt (is_plug (skey y)) (map snd (hist st)) > 0)%nat) by lia.
       destruct (processed_plugin _ _ _ y I Iy P1) as (_ & Ay). repeat split; auto; lia.
     - intros (Iy & Sy & Ry).
       pose proof (i_cons1 _ _ _ I y Iy) as C1. pose proof (i_cons2 _ _ _ I y Iy) as C2.
-      assert (Z1 : cnt (is_plug (sid y)) q = O).
-      { destruct (cnt (is_plug (sid y)) q) eqn:E; auto. exfalso.
-        assert (P : (cnt (is_plug (sid y)) q > 0)%nat) by lia.
+      assert (Z1 : cnt (is_plug (skey y)) q = O).
+      { destruct (cnt (is_plug (skey y)) q) eqn:E; auto. exfalso.
+        assert (P : (cnt (is_plug (skey y)) q > 0)%nat) by lia.
         apply cnt_pos_ex in P. destruct P as (e & Ie & Ee).
-        destruct e as [ts z| |]; simpl in Ee; try discriminate. apply Z.eqb_eq in Ee.
+        destruct e as [ts z| |]; simpl in Ee; try discriminate. apply key_eqb_eq in Ee.
         destruct (good_plugin _ _ (i_good_p _ _ _ I _ Ie)) as (Iz & ->).
         assert (z = y) by (apply sid_inj; auto). subst z.
         pose proof (G _ Ie) as L. simpl in L. lia. }
-      assert (Z2 : cnt (is_unpl (sid y)) (map snd (hist st)) = O).
-      { destruct (cnt (is_unpl (sid y)) (map snd (hist st))) eqn:E; auto. exfalso.
-        assert (P : (cnt (is_unpl (sid y)) (map snd (hist st)) > 0)%nat) by lia.
+      assert (Z2 : cnt (is_unpl (skey y)) (map snd (hist st)) = O).
+      { destruct (cnt (is_unpl (skey y)) (map snd (hist st))) eqn:E; auto. exfalso.
+        assert (P : (cnt (is_unpl (skey y)) (map snd (hist st)) > 0)%nat) by lia.
         destruct (processed_unplug _ _ _ y I Iy P) as (_ & L). lia. }
       rewrite <- Sy. apply (i_occ2 _ _ _ I); auto. lia.
   Qed.
@@ -850,20 +864,20 @@ Section C01.
     rewrite H in F; auto. discriminate.
   Qed.
 
-  Lemma cnt_plug_sessions i l : cnt (is_plug i) l = cnt (fun y => Z.eqb (sid y) i) (sessions_of l).
+  Lemma cnt_plug_sessions i l : cnt (is_plug i) l = cnt (fun y => key_eqb (skey y) i) (sessions_of l).
   Proof.
     induction l as [|e r IH]; auto. unfold sessions_of in *. simpl flat_map.
     destruct e; rewrite ?cnt_cons, ?cnt_app; simpl; rewrite ?cnt_cons, ?cnt_nil, IH; lia.
   Qed.
   Lemma cnt_nodup_one (L : list session) x :
-    NoDup (map sid L) -> In x L -> cnt (fun y => Z.eqb (sid y) (sid x)) L = 1%nat.
+    NoDup (map skey L) -> In x L -> cnt (fun y => key_eqb (skey y) (skey x)) L = 1%nat.
   Proof.
     induction L as [|a r IH]; simpl; intros ND I; [contradiction|].
     inversion ND as [|? ? Hn Hr]; subst. rewrite cnt_cons. destruct I as [->|I].
-    - rewrite Z.eqb_refl. rewrite cnt_false; auto.
-      intros b Ib. apply Z.eqb_neq. intro E. apply Hn. rewrite <- E. apply in_map; auto.
-    - rewrite IH; auto. destruct (sid a =? sid x) eqn:E; auto.
-      apply Z.eqb_eq in E. exfalso. apply Hn. rewrite E. apply in_map; auto.
+    - rewrite key_eqb_refl. rewrite cnt_false; auto.
+      intros b Ib. apply key_eqb_neq. intro E. apply Hn. rewrite <- E. apply in_map; auto.
+    - rewrite IH; auto. destruct (key_eqb (skey a) (skey x)) eqn:E; auto.
+      apply key_eqb_eq in E. exfalso. apply Hn. rewrite E. apply in_map; auto.
   Qed.
 
   Lemma init_inv n0 : LoopInv (init N V evs n0).
@@ -1032,8 +1046,8 @@ Section C01.
     LoopInv st -> loop_guard st = false ->
     queue st = [] /\ occ st = [] /\
     (forall x, In x sessions ->
-       cnt (fun p => is_plug (sid x) (snd p)) (hist st) = 1%nat /\
-       cnt (fun p => is_unpl (sid x) (snd p)) (hist st) = 1%nat /\
+       cnt (fun p => is_plug (skey x) (snd p)) (hist st) = 1%nat /\
+       cnt (fun p => is_unpl (skey x) (snd p)) (hist st) = 1%nat /\
        In (s_arrival x, EPlugin (s_arrival x) x) (hist st) /\
        In (s_departure x, EUnplug (s_departure x) x) (hist st)) /\
     iter st = 1 + last_ts (hist st).
@@ -1047,10 +1061,10 @@ Section C01.
     split.
     { intros x Ix. pose proof (i_cons1 _ _ _ I x Ix) as C1. pose proof (i_cons2 _ _ _ I x Ix) as C2.
       rewrite cnt_nil in *.
-      assert (P1 : (cnt (is_plug (sid x)) (map snd (hist st)) > 0)%nat) by lia.
-      assert (P2 : (cnt (is_unpl (sid x)) (map snd (hist st)) > 0)%nat) by lia.
+      assert (P1 : (cnt (is_plug (skey x)) (map snd (hist st)) > 0)%nat) by lia.
+      assert (P2 : (cnt (is_unpl (skey x)) (map snd (hist st)) > 0)%nat) by lia.
       destruct (processed_plugin _ _ _ x I Ix P1). destruct (processed_unplug _ _ _ x I Ix P2).
-      rewrite (cnt_map snd (is_plug (sid x))) in *. rewrite (cnt_map snd (is_unpl (sid x))) in *.
+      rewrite (cnt_map snd (is_plug (skey x))) in *. rewrite (cnt_map snd (is_unpl (skey x))) in *.
       repeat split; auto; lia. }
     destruct (l_last _ L) as [(E & H)|[NQ|(e & Ie)]].
     - rewrite E, H. reflexivity.
@@ -1143,8 +1157,8 @@ Section C01.
 
   Lemma c01_once n0 st : run (fuel_of evs) (init N V evs n0) = Done st ->
     forall x, In x sessions ->
-      cnt (fun p => is_plug (sid x) (snd p)) (hist st) = 1%nat /\
-      cnt (fun p => is_unpl (sid x) (snd p)) (hist st) = 1%nat /\
+      cnt (fun p => is_plug (skey x) (snd p)) (hist st) = 1%nat /\
+      cnt (fun p => is_unpl (skey x) (snd p)) (hist st) = 1%nat /\
       In (s_arrival x, EPlugin (s_arrival x) x) (hist st) /\
       In (s_departure x, EUnplug (s_departure x) x) (hist st).
   Proof.
